@@ -172,6 +172,21 @@ def dpl_ring(ctx):
     for need, txt in (("self.dpl_deque.append(sn)", "ring append"), ("self.dpl_set.add(sn)", "set add")):
         ok = bool(normal) and all(any(f.kind == "call" and pretty(f.xkey) == need for f in st.facts) for st in normal)
         ctx.ob("C06.dpl-ring", con, txt, ok, f"every accepted SN is recorded by `{need}`", fi.loc)
+    # the only ways an SN leaves / enters the list are the four paired operations (no clear, rebind, slice, remove)
+    from ..locks import LockAnalysis
+    la = LockAnalysis(ctx)
+    muts = []
+    for fld in ("dpl_set", "dpl_deque"):
+        for a in la.accesses("geonet.location_table.LocationTableEntry", fld):
+            if a.kind != "read":
+                muts.append((fld, a.how, a.fi.short(), a.line))
+    allowed = {("dpl_set", ".add()"), ("dpl_set", ".discard()"), ("dpl_deque", ".append()"), ("dpl_deque", ".popleft()")}
+    bad = [m for m in muts if (m[0], m[1]) not in allowed or m[2] != con]
+    cnt = {k: sum(1 for m in muts if (m[0], m[1]) == k) for k in allowed}
+    ctx.ob("C06.dpl-ring", con, "only-paired-mutations", not bad and all(v == 1 for v in cnt.values()),
+           "the duplicate packet list is only changed by one add/append and one popleft/discard" if not bad and all(v == 1 for v in cnt.values())
+           else f"the duplicate packet list is also changed by {[(m[0] + m[1], m[2].split('.')[-1], m[3]) for m in bad] or cnt}: "
+                "sequence numbers can leave the list while still inside the window (a late duplicate is delivered again)", fi.loc)
     # eviction pairing
     disc = [c for c in P.calls_in(fi) if isinstance(c.func, ast.Attribute) and c.func.attr == "discard"]
     pops = [c for c in P.calls_in(fi) if isinstance(c.func, ast.Attribute) and c.func.attr == "popleft"]
